@@ -411,7 +411,37 @@ fn zip_check_in(c: &ZipCase, rep: &mut Rep, root: &Path, nr: usize) -> Result<()
                 let t = temp_dirs[0].1.path().to_path_buf();
                 let paths: Vec<PathBuf> = r.iter().map(PathBuf::from).collect();
                 // verify inside the scope of temp_dirs (the TempDir is removed on drop)
-                let res = verify(&t, &paths, &expected, &by_name);
+                let mut res = verify(&t, &paths, &expected, &by_name);
+                if res.is_ok() {
+                    // a second request for the same archive (other pattern) reuses the temp dir: again exactly the
+                    // matching members are reported, nothing else appears in the directory
+                    let pat2 = GLOBS[(c.glob as usize + 1 + c.call as usize) % GLOBS.len()];
+                    let gp2 = glob::Pattern::new(pat2).unwrap();
+                    let exp2: Vec<String> = unique_names.iter().filter(|n| (*n == pat2 || gp2.matches(n)) && !n.ends_with('/') && !leads_outside(n)).cloned().collect();
+                    let arg2 = format!("{}/{}", first.display(), pat2);
+                    let r2 = extract_archives(arg2.clone(), &mut temp_dirs, &cancel, &log);
+                    if exp2.is_empty() {
+                        if !(r2.is_empty() || r2 == vec![arg2.clone()]) {
+                            res = Err(format!("second request {:?}: nothing matches but {:?} is reported", pat2, r2));
+                        }
+                    } else {
+                        let paths2: Vec<PathBuf> = r2.iter().map(PathBuf::from).collect();
+                        res = verify(&t, &paths2, &exp2, &by_name).map_err(|e| format!("second request with pattern {:?} on the same archive: {}", pat2, e));
+                    }
+                    if res.is_ok() {
+                        // directory content = union of both selections
+                        let mut have: Vec<String> = snapshot(&t).iter().filter(|(_, d)| true || d.is_empty()).filter(|(p, _)| p.is_file()).map(|(p, _)| norm(p.strip_prefix(&t).unwrap_or(p))).collect();
+                        have.sort();
+                        have.dedup();
+                        let mut want: Vec<String> = expected.iter().chain(exp2.iter()).map(|n| norm(Path::new(n))).collect();
+                        want.sort();
+                        want.dedup();
+                        if have != want {
+                            res = Err(format!("after two requests ({:?}, {:?}) the temp dir holds {:?}, expected {:?}", pat, pat2, have, want));
+                        }
+                    }
+                    rep.label("second_request_same_archive");
+                }
                 drop(temp_dirs);
                 res?;
                 (t, vec![])
